@@ -6,4 +6,4 @@ CONSTANTS
   MaxOps = 2
   Big = TRUE
   CheckImpl = FALSE
-  NonAscii = FALSE
+  NonAscii = TRUE
